@@ -1059,6 +1059,7 @@ def suggest_clauses(st, it, c, res, mode):
     return clauses
 
 
+QUOTE_THEN_CONVERTED = [("\"", "\":`"), ("\"", "\",,"), ("'", "':`")]
 WRAPPERS_QUICK = [("", ""), ("\"", "\""), ("'", ""), ("(", ")"), ("", "."), ("", ","), ("\"'", "'\""), ("", "!"), ("-", ""), ("", "?")]
 
 
@@ -2032,7 +2033,8 @@ def quote_pair_search(vs):
     def uncurl_s(t):
         return "".join(un.get(ord(ch), ch) for ch in t)
     words = ["sesh", "a", "\\", "smile", "k"]
-    wraps = [("\"", "\""), ("'", "'"), ("\"", ""), ("", "'"), ("(\"", "\")"), ("\"'", "'\"")]
+    wraps = [("\"", "\""), ("'", "'"), ("\"", ""), ("", "'"), ("(\"", "\")"), ("\"'", "'\"")] + QUOTE_THEN_CONVERTED
+    plain_wrapped = set(p + w + t for w in ("sesh", "a", "smile", "k") for p, t in wraps)
     texts = [p + w + t for w in words for p, t in wraps] + SPECIAL_TERMS + QUOTED_AUTOCORRECT_TERMS
     scs = []
     meta = []
@@ -2063,18 +2065,28 @@ def quote_pair_search(vs):
         if not same or son != soff:
             return sc, [on, off], "typed %r (English %s, ANSI %s): with smart quotes %s (preselection %d), without %s (preselection %d)" % (
                 t, en, ansi, lon, son, loff, soff), "smart quotes change the list beyond curling"
+        # a plain word in wrapping quotes: with the option on no candidate but the raw typed text keeps a straight quote
+        if t in plain_wrapped:
+            kept = [x for x in lon if x != t and ("'" in x or '"' in x)]
+            if kept:
+                return sc, [on, off], "typed %r (English %s, ANSI %s): with smart quotes on the candidate %r keeps a straight quote (list %s)" % (
+                    t, en, ansi, kept[0], lon), "smart quotes leave a wrapping quote straight"
     return None
 
 
 def obl_quote_pair(check, conv_table, thorough=False, budget_s=None):
     kw = dict(mode="quote_pair", dict_max=1, emoji_count=1, suffixes=False, selections=True, autocorrect=False, user_autocorrect=False, dist_mode="fixed")
     shapes = base_shapes(WRAPPERS_QUICK, [0, 1] + ([2] if thorough else []), conv_table, **kw)
+    # a closing quote followed by punctuation that converts to something else (an escaped colon, the explicit hasanta): the candidates are
+    # Bengali text whose punctuation is already converted, the quotes are those of the typed text
+    shapes += base_shapes([w for w in QUOTE_THEN_CONVERTED if (w[0] + w[1]) in conv_table or all(x in conv_table for x in w if x)], [1], conv_table, **kw)
     shapes += special_term_shapes(SPECIAL_TERMS, **kw)
     shapes += special_term_shapes(QUOTED_AUTOCORRECT_TERMS, **dict(kw, autocorrect=True, real_autocorrect=True))
     check.bounds["quote_pairing"] = dict(word="0-1%s symbolic letters/digits" % ("/2" if thorough else ""), wrappers=[s["pre"] + "W" + s["trail"] for s in shapes][:10],
                                          data="0-1 dictionary word, emoji name / emoticon / learned selection present or absent", options="English, ANSI symbolic; smart quotes on vs off")
     run_suggest_obligation(check, "quote_pairing", shapes, ["cover:quote_pair"],
-                           confirmers={"smart_quotes_keep_length_and_order": quote_pair_search, "smart_quotes_keep_preselection": quote_pair_search}, budget_s=budget_s)
+                           confirmers={"smart_quotes_keep_length_and_order": quote_pair_search, "smart_quotes_keep_preselection": quote_pair_search,
+                                       "smart_quotes_curl_every_candidate": quote_pair_search}, budget_s=budget_s)
 
 
 def reconfig_search(vs):
